@@ -209,10 +209,36 @@ class C08(Property):
     # heterogeneous collections that share one data layout (the two 3-D perturbed classes with equal mode counts) and mixed mode
     # counts, for every kind of collection and both orders: a fixed sweep (random draws reach these combinations unevenly)
     def exhaustive_jobs(self, tier):
-        return [{"domain": "layout-twins", "kind": k} for k in ("Emulsion", "EmulsionTimeCourse", "DropletTrack", "DropletTrackList")]
+        jobs = [{"domain": "layout-twins", "kind": k} for k in ("Emulsion", "EmulsionTimeCourse", "DropletTrack", "DropletTrackList")]
+        # large collections: a fixed sweep over the count ladder (random draws of this rare branch are too uneven to rely on)
+        ladder = [33, 257, 1025, 1100] if tier == "quick" else [33, 257, 1025, 1100, 2050, 4100]
+        for k in ("Emulsion", "EmulsionTimeCourse", "DropletTrack", "DropletTrackList"):
+            for what in (["droplets", "members"] if k in ("EmulsionTimeCourse", "DropletTrackList") else ["droplets"]):
+                for n in ladder:
+                    jobs.append({"domain": "bulk-collections", "kind": k, "what": what, "n": n})
+        return jobs
 
     def expand(self, job):
         kind = job["kind"]
+        if job["domain"] == "bulk-collections":
+            for v, cls in enumerate(("SphericalDroplet", "DiffuseDroplet", "PerturbedDroplet2D")):
+                dim = [3, 1, 2][v]
+                spec = {"kind": kind, "dim": dim, "cls": cls, "hetero": False, "build": ["ctor", "append"][v % 2], "info": None, "bulk": {"what": job["what"], "n": job["n"], "seed": 11 * v + job["n"], "modes": 3}}
+                first = {"cls": cls, "position": [0.5] * dim, "radius": 1.25}
+                if cls != "SphericalDroplet":
+                    first["interface_width"] = 0.5
+                if cls.startswith("Perturbed"):
+                    first["amplitudes"] = [0.1, 0.0, -0.1]
+                if kind == "Emulsion":
+                    spec["members"] = [[first]]
+                elif kind == "DropletTrack":
+                    spec["members"], spec["times"] = [[first]], [[-1.0]]
+                elif kind == "EmulsionTimeCourse":
+                    spec["members"], spec["times"], spec["member_hetero"] = [[first], []], [-2.0, -1.0], False
+                else:
+                    spec["members"], spec["times"] = [[first], []], [[-1.0], []]
+                yield spec
+            return
 
         def dr(cls, z, r, amps, onaxis=True):
             return {"cls": cls, "position": [0.0 if onaxis else 1.5, 0.0, z], "radius": r, "interface_width": 0.5, "amplitudes": amps}
